@@ -36,6 +36,8 @@ import (
 //	CS   own genuinely signed COMMIT carrying ANOTHER member's random-seed share (replayed from that member's COMMIT)
 //	PX   own genuine PREPARE / COMMIT for a hash nobody proposed, in the target's current view
 //	NVO  NEW_VIEW whose votes only reach quorum if the vote of an OUTSIDER (valid key, not a member) is counted
+//	NVP  NEW_VIEW in which a genuine PREPARE / COMMIT of a correct member for this view stands in the place of that
+//	     member's vote (same wire layout; the signature is the member's own), the other votes genuine
 //	NVT  NEW_VIEW whose embedded proposal is genuinely signed but declares another message type (COMMIT) in its header
 //	NVB  NEW_VIEW valid in every signed part whose attached (unsigned) block body is another block (P4 variant)
 //	OUT  outsider-signed PREPARE / COMMIT / VIEW_CHANGE                            (P7)
@@ -82,7 +84,7 @@ func (a *Adv) soupDependent() bool {
 	if a.e.Cfg.Eager {
 		return true
 	}
-	for _, p := range []string{"XT", "CS", "VC", "VCT", "NV", "NVW", "NVH", "NVN", "NVM", "NVE", "NVB", "NVT", "NVO"} {
+	for _, p := range []string{"XT", "CS", "VC", "VCT", "NV", "NVW", "NVH", "NVN", "NVM", "NVE", "NVB", "NVT", "NVO", "NVP"} {
 		if a.on(p) {
 			return true
 		}
@@ -487,7 +489,7 @@ func (a *Adv) build(soup []Sent, t *LState) []int {
 		}
 	}
 	// ---- NEW_VIEW in views the adversary leads
-	if a.on("NV") || a.on("NVF") || a.on("NVW") || a.on("NVH") || a.on("NVN") || a.on("NVM") || a.on("NVE") || a.on("NVB") || a.on("NVT") || a.on("NVO") {
+	if a.on("NV") || a.on("NVF") || a.on("NVW") || a.on("NVH") || a.on("NVN") || a.on("NVM") || a.on("NVE") || a.on("NVB") || a.on("NVT") || a.on("NVO") || a.on("NVP") {
 		for v := uint64(1); v <= e.Cfg.MaxView; v++ {
 			if v < t.View {
 				continue
@@ -674,6 +676,73 @@ func (a *Adv) newViews(soup []Sent, t *LState, b primitives.MemberId, v uint64, 
 					PP: brefT{protocol.LEAN_HELIX_PREPREPARE, kit.Instance, H, V, kit.HashOf(x)}, PPS: me}, x), "NVO")
 			}
 		}
+	}
+	if a.on("NVP") {
+		// what the leader can do once a correct member has accepted its first NEW_VIEW for v and answered with PREPARE
+		// (or COMMIT): own vote (every variant) + a subset of the genuine votes of OTHER members + that PREPARE in the
+		// place of the member's vote. The quorum is only reached if the PREPARE is counted as a vote.
+		type rep struct {
+			id       string
+			hdr, sig []byte
+		}
+		var reps []rep
+		seenRep := map[string]bool{}
+		for _, s := range soup {
+			m := e.msg(int(s.Msg))
+			i := m.Info
+			if (i.Kind != ref.KP && i.Kind != ref.KC) || i.Hdr.Height != h || i.Hdr.View != v || a.owns(primitives.MemberId(i.Sender.ID)) || seenRep[i.Kind+i.Sender.ID] {
+				continue
+			}
+			seenRep[i.Kind+i.Sender.ID] = true
+			switch pm := interfaces.ToConsensusMessage(m.Raw).(type) {
+			case *interfaces.PrepareMessage:
+				reps = append(reps, rep{i.Sender.ID, pm.Content().SignedHeader().Raw(), pm.Content().Sender().Signature()})
+			case *interfaces.CommitMessage:
+				reps = append(reps, rep{i.Sender.ID, pm.Content().SignedHeader().Raw(), pm.Content().Sender().Signature()})
+			}
+		}
+		me := signerT{ID: b, Mode: "valid"}
+		for _, rp := range reps {
+			var others []cand
+			for _, c := range pool {
+				if c.id != rp.id {
+					others = append(others, c)
+				}
+			}
+			for mask := 0; mask < 1<<uint(len(others)); mask++ {
+				for _, o := range own {
+					confs := interfaces.ExtractConfirmationsFromViewChangeMessages([]*interfaces.ViewChangeMessage{o.vcm})
+					ids := map[string]bool{string(b): true}
+					best := o
+					for i, c := range others {
+						if mask&(1<<uint(i)) != 0 && !ids[c.id] {
+							ids[c.id] = true
+							confs = append(confs, interfaces.ExtractConfirmationsFromViewChangeMessages([]*interfaces.ViewChangeMessage{c.vcm})...)
+							if c.pv > best.pv {
+								best = c
+							}
+						}
+					}
+					if r.IsQuorum(ids) { // a quorum of real votes: the plain NV primitive
+						continue
+					}
+					ids[rp.id] = true
+					if !r.IsQuorum(ids) {
+						continue
+					}
+					confs = append(confs, voteT{H: H, RawHdr: rp.hdr, S: signerT{ID: primitives.MemberId(rp.id), Mode: "replay", Sig: rp.sig}}.builder())
+					tags := e.Cfg.Alphabet
+					if best.pv >= 0 {
+						tags = []string{best.tag}
+					}
+					for _, tag := range tags {
+						x := a.blockFor(h, tag)
+						add(f.CreateNewViewMessage(H, V, f.CreatePreprepareMessageContentBuilder(H, V, x, kit.HashOf(x)), confs, x), "NVP")
+					}
+				}
+			}
+		}
+		_ = me
 	}
 	if a.on("NVT") {
 		// proof-less votes of everybody known + own vote, a fresh block, every signature genuine; only the embedded
